@@ -46,6 +46,14 @@ impl BlockFormatter for BlockIndentRemover {
 
         let indent_ofs = match find_prev_line_break_pos(content, bytes, start_byte_pos, true) {
             Some(pos) => start_byte_pos - pos - 1,
+            // No line break before the marker: if only blanks precede it, the marker stands on the
+            // first line of the file and its column is its distance from the start of the file.
+            None if bytes[..start_byte_pos.min(bytes.len())]
+                .iter()
+                .all(|b| *b == b' ' || *b == b'\t') =>
+            {
+                start_byte_pos
+            }
             None => 0,
         };
         let mut current_pos = start_byte_pos + 1;
